@@ -21,7 +21,7 @@ open Rustic.Prune Driver
 open Rustic.Repo (BlobType Key IdxPack)
 
 /-- the code after `fix:` keys `used_ids` by (type, id). -/
-def typed : Bool := false
+def typed : Bool := true
 
 def consts : Consts :=
   { compOverhead := Rustic.Gen.C02_COMP_OVERHEAD, lengthLen := Rustic.Gen.C02_LENGTH_LEN,
@@ -143,6 +143,8 @@ def planObs (o : Opts) (fast : Bool) (files : List IndexFile) (used : List Key) 
       s!"{sumSize ps (·.todo == .delete)}/{sumSize ps (·.todo == .recover)}/{sumSize ps isKM}"
     let left := sortStrs ((d.usedKeys.eraseDups.filter (fun k => (d.usedLeft.get k).isSome)).map keyStr)
     let needRepack := ps.any (fun p => p.todo == .repack)
+    -- hypothesis `RepackRebuilt` of theorem prune_covers_used_keys, evaluated on every case
+    if !(ps.all (fun p => p.todo != .repack || d.rebuild.contains p.index)) then "model-wf-violation:RepackRebuilt" else
     let x := if needRepack && !fast then "skip" else execStr o (execute typed o d)
     s!"ok D={joinC dec} B=t:{statStr (blobStats ps .tree)},d:{statStr (blobStats ps .data)} " ++
     s!"S=t:{statStr (sizeStats ps .tree)},d:{statStr (sizeStats ps .data)} P={packs} TD={td} " ++
@@ -168,12 +170,14 @@ def infoObs (cs : List (Key × Nat)) (packs : List IndexPack) : String :=
 /-- `hist`: the model side of a real history only predicts which snapshots survive (the oracles run in the harness).
 steps: `b<k>` backup of source version k, `f<i>` forget the i-th live snapshot (mod count), `p…` prune. -/
 def histObs (steps : List String) : String :=
-  let n := steps.foldl (fun (n : Nat) s => match s.toList with
-    | 'b' :: _ => n + 1
-    | 'c' :: _ => n + 2
-    | 'f' :: _ => if n > 1 then n - 1 else n
-    | _ => n) 0
-  s!"ok snaps={n}"
+  let r := steps.foldl (fun (st : Nat × Nat) s => match s.toList with
+    | 'b' :: _ => (st.1 + 1, st.2)
+    | 'x' :: _ => (st.1 + 1, st.2)
+    | 'c' :: _ => (st.1 + 2, st.2)
+    | 'f' :: _ => if st.1 > 1 then (st.1 - 1, st.2 + 1) else st
+    | 'u' :: _ => if st.2 > 0 then (st.1 + 1, st.2 - 1) else st
+    | _ => st) (0, 0)
+  s!"ok snaps={r.1}"
 
 def handle : List String → String
   | ["plan", opts, sizers, used, existing, files] =>
@@ -188,7 +192,7 @@ def handle : List String → String
     match parseCounts counts, (splitList "+" packs).mapM parsePack with
     | some cs, some ps => infoObs cs ps
     | _, _ => "bad-op"
-  | "hist" :: _cfg :: steps :: _ =>
+  | ["hist", _seed, steps] =>
     let ss := splitList ";" steps
     if ss.all (fun s => s.length > 0) then histObs ss else "bad-op"
   | _ => "bad-op"
